@@ -164,38 +164,42 @@ fn ref_forward<S: Scalar>(layers: &[LayerSpec], params: &[[(Vec<usize>, Vec<S>);
     Some((dims, vals))
 }
 
-/// The documented cost formulas; the target may be broadcast (right-aligned) against the output.
+/// The documented cost formulas; target and output are combined with right-aligned broadcasting
+/// (the usual case: equal shapes; also one target row for a batch, or a flat target against a
+/// column output, which gives an outer difference).
 fn ref_loss<S: Scalar>(cost: CostKind, out: (&[usize], &[S]), target: (&[usize], &[f64])) -> S {
-    let n = out.1.len();
+    let rd = match crate::refmodel::broadcast_dims(out.0, target.0) {
+        Some(d) => d,
+        None => return S::c(f64::NAN),
+    };
+    let n = numel(&rd);
     let mut s = S::c(0.0);
-    let mut idx = vec![0usize; out.0.len()];
-    let tgt = |i: usize, idx: &mut Vec<usize>| -> f64 {
-        if target.1.len() == n && target.0 == out.0 {
-            return target.1[i];
-        }
-        let mut f = i;
-        for k in (0..out.0.len()).rev() {
-            idx[k] = f % out.0[k];
-            f /= out.0[k];
-        }
-        let off = out.0.len() - target.0.len();
+    let mut idx = vec![0usize; rd.len()];
+    let at = |dims: &[usize], idx: &[usize]| -> usize {
+        let off = idx.len() - dims.len();
         let mut t = 0;
-        for (j, d) in target.0.iter().enumerate() {
+        for (j, d) in dims.iter().enumerate() {
             t = t * d + if *d == 1 { 0 } else { idx[off + j] };
         }
-        target.1[t]
+        t
     };
-    match cost {
-        CostKind::Mse => {
-            for i in 0..n {
-                let d = S::c(tgt(i, &mut idx)).sub(out.1[i]);
-                s = s.add(d.mul(d).scale(1.0 / n as f64));
-            }
+    let len = out.1.len() as f64;
+    let lead = out.0[0] as f64;
+    for i in 0..n {
+        let mut f = i;
+        for k in (0..rd.len()).rev() {
+            idx[k] = f % rd[k];
+            f /= rd[k];
         }
-        CostKind::CrossEntropy => {
-            let b = out.0[0] as f64;
-            for i in 0..n {
-                s = s.add(S::c(-tgt(i, &mut idx)).mul(out.1[i].ln()).scale(1.0 / b));
+        let o = out.1[at(out.0, &idx)];
+        let t = target.1[at(target.0, &idx)];
+        match cost {
+            CostKind::Mse => {
+                let d = S::c(t).sub(o);
+                s = s.add(d.mul(d).scale(1.0 / len));
+            }
+            CostKind::CrossEntropy => {
+                s = s.add(S::c(-t).mul(o.ln()).scale(1.0 / lead));
             }
         }
     }
@@ -222,7 +226,7 @@ pub fn reference_iteration(layers: &[LayerSpec], cost: CostKind, params: &Params
     let mut margin = f64::INFINITY;
     let pf = params_as::<f64>(params);
     let (od, ov) = ref_forward::<f64>(layers, &pf, x, &mut margin)?;
-    if target.0.len() > od.len() || crate::refmodel::broadcast_dims(target.0, &od).as_deref() != Some(&od[..]) || numel(target.0) != target.1.len() {
+    if crate::refmodel::broadcast_dims(target.0, &od).is_none() || numel(target.0) != target.1.len() {
         return None;
     }
     let loss = ref_loss::<f64>(cost, (&od, &ov), target);
@@ -803,7 +807,7 @@ fn model_span(sim: &mut Sim, src: &mut dyn Source, rec: &mut Vec<Ev>, model: &mu
                 // the target has the output's shape or is broadcast against it (a target row for a whole batch)
                 let ok = (ts.phase == Phase::AfterFwd || accumulating || again)
                     && numel(dims) == vals.len()
-                    && ts.out_dims_real.as_ref().map(|o| dims.len() <= o.0.len() && crate::refmodel::broadcast_dims(dims, &o.0).as_deref() == Some(&o.0[..])).unwrap_or(false);
+                    && ts.out_dims_real.as_ref().map(|o| crate::refmodel::broadcast_dims(dims, &o.0).map(|d| numel(&d) <= 256).unwrap_or(false)).unwrap_or(false);
                 if !ok {
                     skip(sim, &ev, "backward not legal here");
                     continue;
